@@ -82,11 +82,11 @@ Qed.
 
 Theorem help_complete perm c D F :
   valid perm ->
-  Forall2 (fun w g => g_title g = spec_title w
+  Forall2 (fun w g => g_title g = spec_title w /\ g_desc g = hw_doc w
                       /\ Forall2 (shows c) (filter spec_exposed (hw_fields w)) (g_entries g))
           F (help_entries_gen perm c D F).
 Proof.
-  intros V. unfold help_entries_gen, help_entries. apply Forall2_map_r. intros w _. split; [reflexivity|].
+  intros V. unfold help_entries_gen, help_entries. apply Forall2_map_r. intros w _. split; [reflexivity|]. split; [reflexivity|].
   unfold group_of. cbn [g_entries]. rewrite filter_exposed. apply Forall2_map_r. intros f _.
   unfold shows. rewrite entry_of_dest, entry_of_opts. split; [reflexivity|]. split.
   - intros o. apply ordered_opts_In. exact V.
@@ -134,6 +134,30 @@ Proof.
   split; [exact A|].
   intros o H. unfold registered in H. apply in_flat_map in H as [g [Hg H]]. apply in_flat_map in H as [e [He H]].
   apply in_map_iff in H as [o' [E _]]. injection E as _ E. exact (A g e Hg He E).
+Qed.
+
+(* the group description is the class docstring, so a hidden field is mentioned there exactly when the docstring
+   mentions it - and the docstring that `dataclasses` writes when the class has none is the constructor signature *)
+Theorem hidden_not_in_description_partial perm c D F :
+  (forall w w' f, In w F -> In w' F -> In f (hw_fields w) -> spec_exposed f = false ->
+                  occurs (name (hf_fw f)) (hw_doc w') = false) ->
+  hidden_not_mentioned F (help_entries_gen perm c D F) = true.
+Proof.
+  intros H. unfold hidden_not_mentioned. apply forallb_forall. intros w Hw. apply forallb_forall. intros f Hf.
+  destruct (spec_exposed f) eqn:E; [reflexivity|]. cbn [orb]. apply forallb_forall. intros g Hg.
+  unfold help_entries_gen, help_entries in Hg. apply in_map_iff in Hg as [w' [<- Hw']].
+  cbn [group_of g_desc]. rewrite (H w w' f Hw Hw' Hf E). reflexivity.
+Qed.
+
+Definition W_autodoc : list hwrap :=
+  [mkhw "A" ["a"] "A(x: int = 1, secret: str = 'hunter2')"
+        [mkhf (mkfw ["a"] "x" "" [] false) true None "" (Some "1");
+         mkhf (mkfw ["a"] "secret" "" [] false) true (Some false) "" (Some "hunter2")]].
+
+Theorem hidden_in_description_refuted :
+  exists perm c D F, valid perm /\ hidden_not_mentioned F (help_entries_gen perm c D F) = false.
+Proof.
+  exists (fun l => l), default_cfg_parser, [], W_autodoc. split; [exact valid_id|]. vm_compute. reflexivity.
 Qed.
 
 (* ---------- the default shown is the effective default; the help text is the field's ---------- *)
@@ -214,7 +238,7 @@ Proof.
   apply cli_help_of_true.
 Qed.
 
-Definition W_ab : list hwrap := [mkhw "K" ["a"] [mkhf (mkfw ["a"] "bb" "" ["cc"] false) true None "" (Some "1")]].
+Definition W_ab : list hwrap := [mkhw "K" ["a"] "Doc." [mkhf (mkfw ["a"] "bb" "" ["cc"] false) true None "" (Some "1")]].
 
 (* with a hash-ordered set, two valid oracles print two different entry lists for one field with two equal-length spellings *)
 Theorem deterministic_refuted :
@@ -231,9 +255,9 @@ Qed.
 (* worse: which option strings exist at all depends on the oracle, because the conflict resolver repairs the first
    clash it meets.  a.ab (alias cd), b.cd, c.ab: under one order `--cd` belongs to b.cd, under the other it does not exist *)
 Definition W_clash : list hwrap :=
-  [mkhw "A" ["a"] [mkhf (mkfw ["a"] "ab" "" ["cd"] false) true None "" (Some "1")];
-   mkhw "B" ["b"] [mkhf (mkfw ["b"] "cd" "" [] false) true None "" (Some "1")];
-   mkhw "C" ["c"] [mkhf (mkfw ["c"] "ab" "" [] false) true None "" (Some "1")]].
+  [mkhw "A" ["a"] "Doc." [mkhf (mkfw ["a"] "ab" "" ["cd"] false) true None "" (Some "1")];
+   mkhw "B" ["b"] "Doc." [mkhf (mkfw ["b"] "cd" "" [] false) true None "" (Some "1")];
+   mkhw "C" ["c"] "Doc." [mkhf (mkfw ["c"] "ab" "" [] false) true None "" (Some "1")]].
 
 Definition accepted_of (r : helprun) : list string :=
   match r_printed r with Some (_, gs) => map fst (registered gs) | None => [] end.
@@ -421,7 +445,7 @@ Qed.
 
 (* the forest used by the non-vacuity example of Properties/C16.v *)
 Definition demo_forest : list hwrap :=
-  [mkhw "K1" ["a"] [mkhf (mkfw ["a"] "bb" "" ["cc"] false) true (Some true) "the value" (Some "1");
+  [mkhw "K1" ["a"] "Doc of K1." [mkhf (mkfw ["a"] "bb" "" ["cc"] false) true (Some true) "the value" (Some "1");
                     mkhf (mkfw ["a"] "hid" "" [] false) true (Some false) "secret" (Some "9");
                     mkhf (mkfw ["a"] "x" "" [] false) true None "" None]].
 
